@@ -15,10 +15,31 @@ import (
 	"verif/harness/kf"
 )
 
+// preloaded: replay files read before the process gave up its privileges (path -> content)
+var preloaded = map[string][]byte{}
+
+func preload(path string) {
+	if path == "" {
+		return
+	}
+	if !filepath.IsAbs(path) {
+		path = filepath.Join(kf.Root(), path)
+	}
+	if b, err := os.ReadFile(path); err == nil {
+		preloaded[path] = b
+	}
+}
+
 // Main runs the tests of one property binary. drop=true switches to the unprivileged uid
 // first (required wherever generated input reaches an in-process gateway).
 func Main(m *testing.M, drop bool) {
 	ev.OutDir()
+	// everything read from the checks' own directory is read now: that directory need not be readable for the
+	// account the process runs as afterwards (a copy below a private home directory is not)
+	for _, f := range kf.Preload() {
+		preload(f.Replay)
+	}
+	preload(os.Getenv("VERIF_REPLAY"))
 	if drop {
 		if err := gw.DropPrivileges(); err != nil {
 			fmt.Fprintln(os.Stderr, "cannot drop privileges:", err)
@@ -35,9 +56,12 @@ func Main(m *testing.M, drop bool) {
 type Handler func(raw json.RawMessage) error
 
 func load(path string) (string, json.RawMessage, error) {
-	b, err := os.ReadFile(path)
-	if err != nil {
-		return "", nil, err
+	b, ok := preloaded[path]
+	if !ok {
+		var err error
+		if b, err = os.ReadFile(path); err != nil {
+			return "", nil, err
+		}
 	}
 	var m struct {
 		Label string          `json:"label"`
